@@ -1324,7 +1324,7 @@ def eval : Nat → Ctx → Frame → Expr → St → Res
         -- with the call `T::f(args)` as the closure body.  Applies only when the receiver/method pair has a
         -- closure plan AND the single argument is syntactically a path of two or more segments.
         match fnPathArg args, closureMethod rv m with
-        | some segs, some (.done v) => .val v st
+        | some _, some (.done v) => .val v st
         | some segs, some (.app cargs w) =>
           ((eval n ctx fr (.call segs (fnPathArgs cargs)) { st with env := fnPathParams cargs ++ st.env }).popTo
             st.env.length).bind fun v st => .val (wrapWith w v) st
